@@ -63,15 +63,16 @@ def parseCase (c : Json) : E Case := do
     pipe := { headers := ← pairs pipe "headers", cookies := ← pairs pipe "cookies" },
     req := { method := bytes (← str req "method"), target := bytes (← str req "target"),
              host := bytes (← str req "host"), headers := ← pairs req "headers",
-             body := bytes (strD req "body" ""), peer := bytes (strD c "peer" "127.0.0.1") } }
+             body := bytes (strD req "body" ""), peer := bytes (strD c "peer" "127.0.0.1"),
+             tls := boolD c "tls" false } }
 
 def jpairs (l : List (Bytes × Bytes)) : Json := jarr (l.map fun p => jarr [jbytes p.1, jbytes p.2])
 
 def outcomeJson : Outcome → Json
   | .unmodelled => Json.mkObj [("unmodelled", Json.bool true)]
   | .rejected st => Json.mkObj [("status", jnat st), ("relayed", Json.bool false), ("hits", jnat 0), ("up", Json.null)]
-  | .forwarded tls _ up => Json.mkObj [("status", jnat 200), ("relayed", Json.bool true), ("hits", jnat 1),
-      ("up", Json.mkObj [("tls", Json.bool tls), ("method", jbytes up.method), ("target", jbytes up.target),
+  | .forwarded tls dial up => Json.mkObj [("status", jnat 200), ("relayed", Json.bool true), ("hits", jnat 1),
+      ("up", Json.mkObj [("tls", Json.bool tls), ("dial", jbytes dial), ("method", jbytes up.method), ("target", jbytes up.target),
         ("proto", jstr "HTTP/1.1"), ("host", jarr [jbytes up.host]), ("headers", jpairs up.headers),
         ("body", jbytes up.body)])]
 
@@ -87,15 +88,15 @@ def parseObs (o : Json) : E Outcome := do
   if natD o "status" 0 != 200 || natD o "hits" 0 != 1 || strD up "proto" "" != "HTTP/1.1" || !(isNull up "err") then
     return .rejected 0
   let target := obytes (← str up "target")
-  pure (.forwarded (boolD up "tls" false) (bytes "UP")
+  pure (.forwarded (boolD up "tls" false) (bytes (strD up "dial" "?"))
     { method := obytes (← str up "method"), path := before '?' target, query := after '?' target, host := host,
       headers := ← opairs up "headers", body := obytes (strD up "body" "") })
 
 def b2n (b : Bool) : Nat := if b then 1 else 0
 
 def stats (c : Case) (o : Outcome) : Json :=
-  let rawp := before '?' c.req.target
-  let q := after '?' c.req.target
+  let rawp := Spec.origRawPath c
+  let q := Spec.origQuery c
   let ch := canonHeaders c.req.headers
   let trusted := isTrusted c.trusted c.req.peer
   let pf := pipeFirst c.pipe.headers
@@ -126,6 +127,13 @@ def stats (c : Case) (o : Outcome) : Json :=
     ("collideOtherCase", jnat caseCollide),
     ("clientFwdHeaders", jnat fwdNames),
     ("multiXFF", jnat (b2n ((values ch hXFFor).length ≥ 2 || (values ch hForwarded).length ≥ 2))),
+    ("listenerTLS", jnat (b2n c.req.tls)),
+    ("forwardedUri", jnat (b2n (Spec.usesForwardedUri c))),
+    ("hopByHop", jnat (ch.filter fun x => isHop ch x.1).length),
+    ("connectionNamesPipe", jnat (b2n ((connectionNamed ch).any fun k => Spec.pipeValues c k ≠ []))),
+    ("pipeOwnedNames", jnat (b2n (Spec.pipeValues c hUserAgent ≠ [] || Spec.pipeValues c hAcceptEncoding ≠ [] || Spec.pipeValues c hCookie ≠ []))),
+    ("pipeContinued", jnat (b2n ((untrustedHeaders.any fun k => Spec.pipeContinued c k)))),
+    ("decoy", jnat (b2n (c.req.host = "DECOY".toList || c.pipe.headers.any (fun x => x.2 = "DECOY".toList) || c.req.headers.any (fun x => x.2 = "DECOY".toList)))),
     ("cookies", jnat c.pipe.cookies.length),
     ("body", jnat c.req.body.length)]
 
